@@ -460,6 +460,24 @@ func genC07(g *gen) {
 	}
 	g.scalarTensorMatrix([]string{"lt", "gte"}, []string{"f64", "i32", "u8", "i64"}, []string{"same", "unsafe", "reuse-same"})
 	g.aliasDestMatrix()
+	// products with a reuse tensor, an increment tensor, and both: each destination holds what its option says, stays the
+	// caller's tensor, and the next product (which takes its temporaries from the pool) does not disturb it
+	for _, dt := range []string{"f64", "f32"} {
+		for _, pool := range []string{"pool on", "pool off"} {
+			for _, c := range []struct{ op, a, b, exp string }{{"mm", "2,3", "3,2", "2,2"}, {"mv", "2,3", "3", "2"}, {"outer", "3", "3", "3,3"}, {"dot", "2,3", "3,2", "2,2"}} {
+				for _, via := range []string{"fn", "meth"} {
+					if c.op == "dot" && via == "meth" {
+						continue
+					}
+					for _, opts := range []string{"reuse=$2", "incr=$2", "reuse=$2 incr=$3", "incr=$3 reuse=$2"} {
+						g.emit("vset=2", pool, fmt.Sprintf("new %s %s C", dt, c.a), fmt.Sprintf("new %s %s C", dt, c.b), fmt.Sprintf("new %s %s C", dt, c.exp), fmt.Sprintf("new %s %s C", dt, c.exp),
+							fmt.Sprintf("la %s %s $0 $1 %s", c.op, via, opts), "dump $4", "dump $2", "dump $3",
+							fmt.Sprintf("la %s %s $0 $1", c.op, via), "dump $5", "dump $2", "dump $3", fmt.Sprintf("new %s 2,2 C", dt), "dump $2", "dump $0", "dump $1")
+					}
+				}
+			}
+		}
+	}
 	for _, op := range []string{"minb", "maxb"} {
 		for _, mode := range []string{"safe", "unsafe", "reuse", "reuse=a", "reuse=b", "unsafe-reuse"} {
 			for _, kind := range []string{"TT", "TS", "ST"} {
